@@ -46,4 +46,7 @@ def Cell.handles (tbl : Ty → Ty → Cell) (a b : Ty) : Bool :=
   | .compute => true
   | .swap => (match tbl b a with | .compute => true | _ => false)
   | _ => false
+/-- result types named by the documentation table (docs/source/example_operation.rst) -/
+inductive ResTy | none | point | line | plane | seg | halfline | polygon | polyhedron
+deriving DecidableEq, Repr
 end G3D.Dispatch
